@@ -92,6 +92,23 @@ CHECKS["C20"] = dict(
     design_ref="DESIGN.md section 3, C20",
 )
 
+_EXT_NOTE = "Bounds: windows of <=2 (quick) / <=3 (thorough) document pieces on the scanned side of the token, text length <= 299 (the 300-character and 28-word scan limits are not reached). Stubs: regex.search by span contract + facts read off the real pattern AST (group order, width, start-at-match-start, always-participates, nullable); process_parenthetical by its lemma (proved on <=5..7 symbolic characters); int() of a year slice. Solver counter-models are confirmed on the real get_citations by a model-guided search of a concrete corpus (~50k texts incl. exrex-generated short forms for every distinct page pattern of the database) - a counter-model the corpus cannot reproduce is reported as inconclusive, never as a violation."
+CHECKS["C02"] = dict(
+    engine="symex", category="other",
+    text="Bounded symbolic verification of the offset arithmetic of every writer of span fields (add_post_citation, add_defendant, add_pre_citation, _extract_shortform/_supra/_id_citation with extract_pin_cite, add_law_metadata, add_journal_metadata, CitationBase.span/full_span/span_with_pincite) on a symbolic window of document pieces: 0 <= full start <= span start <= span end <= full end <= len, span starts at the token and covers it, pin-cite span contains span and pin-cite text - z3 validity queries over symbolic cut points on every path.",
+    note=_EXT_NOTE + " Outside: markup-mode offsets (C19), law/journal pin-cite spans (those kinds record none).", technique=SYMEX, design_ref="DESIGN.md section 3, C02",
+)
+CHECKS["C17"] = dict(
+    engine="symex", category="other",
+    text="Same exploration as C02 with provenance: every string stored in metadata is a slice (lo, hi) of the symbolic text, so 'inside the citation's full span' is an inequality decided by z3 on every path; plus is_parallel_citation on two neighbours with arbitrary (possibly None) full-span starts: copied parties/year lie in the own or joint extent of citations that start together.",
+    note=_EXT_NOTE + " The parenthetical clause is claimed for full citations only (as the property states).", technique=SYMEX, design_ref="DESIGN.md section 3, C17",
+)
+CHECKS["C04"] = dict(
+    engine="symex", category="other",
+    text="PARTIAL (pure-Python layers): 'no feasible path ends in an exception' asserted on the symbolic explorations of the extraction helpers, Tokenizer.tokenize, resolve_citations and annotate_citations/SpanUpdater (and HyperscanTokenizer's offset table / cache loader) under contract stubs for the C libraries; exception paths are replayed on the real code.",
+    note="Not decided: exceptions or non-termination inside regex/hyperscan/lxml/pyahocorasick/diff-match-patch on hostile strings; get_citations glue beyond the interpreted helpers. Bounds as in C02, C06, C09, C12.", technique=SYMEX, design_ref="DESIGN.md section 3, C04",
+)
+
 PENDING = {}
 
 NOT_APPLICABLE = {
